@@ -859,7 +859,7 @@ func Run(tier string) int {
 	}
 	return engine.Finish(res, engine.Meta{
 		Property: Prop, Tier: tier, Level: "model_checking", Start: start,
-		Rule:   "7 transaction kinds x (every single-field post-signing mutation, each followed by the untouched original) + all orders <= depth over {t(n), t(n+1), t(n+1)@otherchain, t(n)@otherchain, t(n+2), mutated t(n)} and all multi-message Ethereum envelopes <= depth over two senders' {current, next nonce} + a message signed for another chain id / without chain id, through the real DeliverTx on branches; reference automaton = sequence number + validly signed payload set; non-trivial = mutation case delivered",
+		Rule:   "7 transaction kinds x (every single-field post-signing mutation, each followed by the untouched original) + all orders <= depth over {t(n), t(n+1), t(n+1)@otherchain, t(n)@otherchain, t(n+2), mutated t(n)} and all multi-message Ethereum envelopes <= depth over two senders' {current, next nonce} + a message signed for another chain id / without chain id + contract creations at both nonces (every message of an accepted envelope re-delivered on its own), and a foreign-events family (a third party's vesting grant and the conversion back rewrite the signer's account between original and replay), through the real DeliverTx on branches; reference automaton = sequence number + validly signed payload set; non-trivial = mutation case delivered",
 		Bounds: map[string]any{"order_depth": map[string]int{"quick": 3, "thorough": 6}, "batch_len": map[string]int{"quick": 3, "thorough": 6}, "kinds": kinds},
 		Assumptions: []string{
 			"DeliverTx path only (CheckTx shares the ante chain; its check state is not branched by the harness)",
